@@ -170,10 +170,15 @@ PROPS["C04"] = dict(
     e2=["c04"],
 )
 PROPS["C16"] = dict(
-    bounds="builder part: as C09 (witness datums collected and emitted once through the de-duplicating setter)",
-    assumptions=["set containers themselves (add / from_bytes de-duplication, canonical asset order) are E1 obligations still to be added"],
+    bounds="set containers (Ed25519KeyHashes, Credentials, TransactionInputs, Certificates, VotingProposals, Vkeywitnesses, BootstrapWitnesses): one inductive step from an arbitrary valid state "
+           "with 0..2 stored elements; add / add_move with one arbitrary element, extend / extend_move / from_vec / decoding with 0..2 (thorough: 3) offered elements and arbitrary coincidences among them and with "
+           "the stored ones; re-encoding of every decoded collection; builder part: as C09 (witness datums collected and emitted once through the de-duplicating setter)",
+    assumptions=["std's HashSet / BTreeSet is a set under Eq of the element (insert reports absence, Rc is transparent); element equality is identity equality in the solver, both outcomes explored",
+                 "the representation invariant (vector and index hold the same pairwise distinct elements) is the inductive hypothesis; it is re-established by every operation, so histories of any length are covered "
+                 "as long as every insertion path is among the operations executed (listed per container in the evidence; a container whose fields change makes its obligation inconclusive)",
+                 "not decided: JSON arrival (serde), canonical order of asset maps and of the mint field, byte-identical repeated builds, reference-input container of the builder, typed witness-set setters other than datums"],
     e1=[],
-    e2=["c09"],
+    e2=["c16", "c09"],
 )
 
 PROPS["C01"] = dict(
@@ -211,7 +216,6 @@ PROPS["C02"] = dict(
         J("c14_int_decode_fixed", bound="every 9-byte buffer", encodes=["Int::from_bytes", "read_nint"]),
         J("c11_strict_parse_base", tier="thorough", bound="length 55..60, header nibble 0..3", encodes=["Address::from_bytes_internal_impl(strict)"], unwind_fn=HL, timeout_s=1800, mem_gb=16),
         J("c11_strict_parse_short", tier="thorough", bound="every byte string of length 0..34, header != Byron", encodes=["Address::from_bytes_internal_impl(strict)"], unwind_fn=HL, timeout_s=1800, mem_gb=16),
-        J("c11_embedded_verbatim_short", tier="thorough", bound="carried byte string of length 0..34", encodes=["Address::deserialize", "from_bytes_impl_unsafe"], unwind_fn=HL, timeout_s=1800, mem_gb=16),
     ],
     e2=["c02"],
 )
